@@ -1,8 +1,10 @@
 """Histories of mutating calls on xgi.SimplicialComplex (generation, execution, observation, Gallina)."""
 import random, warnings
 from . import gallina as G
+from . import common as C
 from .hgsim import rattr, observe, obs_to_gallina, dedup_named, bunch_arg
 
+ITER_OK = True     # member collections may be presented as tuples / one-shot iterators (common.members)
 STYLES = ["int", "int", "int", "str"]
 
 
@@ -135,13 +137,13 @@ def apply_op(S, op):
                 _, ms, idx, a = op
                 extra["fs_order"] = list(frozenset(ms)) if all(_hashable(x) for x in ms) else list(ms)
                 if idx is None:
-                    S.add_simplex(list(ms), **a)
+                    S.add_simplex(C.members(ms), **a)
                 else:
-                    S.add_simplex(list(ms), idx=idx, **a)
+                    S.add_simplex(C.members(ms), idx=idx, **a)
             elif name == "add_edge":
                 _, ms, a = op
                 extra["fs_order"] = list(frozenset(ms))
-                S.add_edge(list(ms), **a)
+                S.add_edge(C.members(ms), **a)
             elif name == "add_simplices_from":
                 _, fmt, items, mo, a = op
                 if fmt == 5:
